@@ -516,8 +516,8 @@ theorem C18_both_directions_structural (E : Ext) (dyn : Val → Except Exc Val) 
       else (zipMO (tryCs E cs) xs).bind fun ys => .ok (.tuple ys)) ∧
     (∀ kind k vc kvs, intoC E dyn (.dict kind k vc) (.dict kvs) =
       match exMapM (fun (kv : Val × Val) =>
-          match intoC E dyn k kv.1 with
-          | .ok k' => (intoC E dyn vc kv.2).map fun v' => (k', v')
+          match anyOr E dyn k (intoC E dyn k) kv.1 with
+          | .ok k' => (anyOr E dyn vc (intoC E dyn vc) kv.2).map fun v' => (k', v')
           | .error e => .error e) kvs with
       | .error e => .error e
       | .ok kvs' => (buildDict kvs').map .dict) ∧
